@@ -215,3 +215,62 @@ Print Assumptions c08_show_no_panic_at_chrono_range.
 Print Assumptions c08_show_at_chrono_range_satisfiable.
 Print Assumptions c08_chrono_range_exact.
 Print Assumptions c08_date_row_never_aborts.
+
+(* ====================================================================================================== *)
+(** * the url crate made concrete (X14)
+
+    [c08_show_no_panic], [c08_link_no_panic] and [c08_verify_no_panic] hold for every answer of the url crate ([url_ok],
+    [node_ok] universally quantified); [c08_link_no_panic] needs one fact about it: `Url::parse("magnet:")`, which
+    `torrent link` unwraps, succeeds. Model/UrlConcrete.v gives the instances - [c_url_ok]: X10's model of `Url::parse`,
+    plus acceptance of every text with a non-special scheme that is not followed by `//` (`parse_non_special` without
+    authority never fails), which is where `magnet:` lies; [c_node_ok]: C17's model of `Deserialize for HostPort` over X9's
+    model of `Host::parse` - and the theorems below are the no-panic theorems at these instances and at chrono's concrete
+    range: the hypothesis about `magnet:` is gone ([c08_magnet_scheme_is_accepted]). The instances are compared with the
+    `url_norm` / `hpunben` hooks in the C05 / C07 / C10 runs (tools/props/urlconcrete.py). *)
+From Imdl Require Model.UrlConcrete Proofs.UrlConcreteProofs Proofs.UrlConcreteUses.
+
+Theorem c08_magnet_scheme_is_accepted :
+  UrlConcrete.c_url_ok k_magnet = true /\ UrlConcrete.url_ok_in_fragment k_magnet = true.
+Proof. exact UrlConcreteProofs.c_url_ok_magnet. Qed.
+
+Check UrlConcreteUses.c_show_no_panic :
+  forall stack_budget : N, max_depth <= stack_budget ->
+  forall (term : bool) (ws : list N) (data : bytes),
+  alloc_ok UrlConcrete.c_url_ok UrlConcrete.c_node_ok data ->
+  finish (show_model UrlConcrete.c_url_ok UrlConcrete.c_node_ok stack_budget Calendar.chrono_accepts term ws data) <> Panic101.
+Theorem c08_show_no_panic_concrete :
+  forall stack_budget : N, max_depth <= stack_budget ->
+  forall (term : bool) (ws : list N) (data : bytes),
+  alloc_ok UrlConcrete.c_url_ok UrlConcrete.c_node_ok data ->
+  finish (show_model UrlConcrete.c_url_ok UrlConcrete.c_node_ok stack_budget Calendar.chrono_accepts term ws data) <> Panic101.
+Proof. exact UrlConcreteUses.c_show_no_panic. Qed.
+
+Theorem c08_link_no_panic_concrete :
+  forall stack_budget : N, max_depth <= stack_budget ->
+  forall data : bytes, finish (link_model UrlConcrete.c_url_ok UrlConcrete.c_node_ok stack_budget data) <> Panic101.
+Proof. exact UrlConcreteUses.c_link_no_panic. Qed.
+
+Theorem c08_verify_no_panic_concrete :
+  forall (verdict : metainfo -> bool) (data : bytes),
+  finish (verify_model UrlConcrete.c_url_ok UrlConcrete.c_node_ok verdict data) <> Panic101.
+Proof. exact UrlConcreteUses.c_verify_no_panic. Qed.
+
+(** the hypotheses hold for a torrent with a tracker URL with port and path, an update URL and an IPv6 node, which the
+    concrete models load, show and link normally; an unparseable URL and a node host the url crate refuses are refused
+    ([ok_tracker] = `http://tracker.example:8080/announce`, [ok_node] = `l3:::1i6881ee`, [bad_tracker] has port 80800,
+    [bad_node] the host `a:b`) *)
+Example c08_concrete_hypotheses_satisfiable :
+  max_depth <= max_depth /\
+  alloc_ok UrlConcrete.c_url_ok UrlConcrete.c_node_ok UrlConcreteUses.url_witness /\
+  finish (show_model UrlConcrete.c_url_ok UrlConcrete.c_node_ok max_depth Calendar.chrono_accepts true [4; 7]
+            UrlConcreteUses.url_witness) = Ok0 /\
+  finish (link_model UrlConcrete.c_url_ok UrlConcrete.c_node_ok max_depth UrlConcreteUses.url_witness) = Ok0 /\
+  UrlConcrete.c_url_ok UrlConcreteUses.ok_tracker = true /\ UrlConcrete.c_node_ok UrlConcreteUses.ok_node = true /\
+  UrlConcrete.c_url_ok UrlConcreteUses.bad_tracker = false /\ UrlConcrete.c_node_ok UrlConcreteUses.bad_node = false.
+Proof. exact UrlConcreteUses.url_witness_shows. Qed.
+
+Print Assumptions c08_magnet_scheme_is_accepted.
+Print Assumptions c08_show_no_panic_concrete.
+Print Assumptions c08_link_no_panic_concrete.
+Print Assumptions c08_verify_no_panic_concrete.
+Print Assumptions c08_concrete_hypotheses_satisfiable.
